@@ -28,6 +28,7 @@ META = {
                     "as ill-conditioned, not asserted"],
 }
 REQUIRED_CLASSES = ["goal:held_pose", "state_outside_limits_before_solve"]
+REQUIRED_REACH = ['kinematics/arm_model.py:Arm.IK', 'kinematics/arm_model.py:Arm.constrainedIK', 'kinematics/arm_model.py:Arm.IKFree']
 REQUIRED_CLAUSES = ["success.orientation", "success.position", "success.in_limits", "success.state", "unreachable", "failure.coherent",
                     "local_convergence"]
 
